@@ -2,7 +2,7 @@
 # Run the repository's test suite against a pure-Python copy of the working
 # tree (no stale cythonized .so), in a scratch dir that is removed afterwards.
 # usage: tools/pytest_pure.sh [src=/repo] [pytest args...]
-SRC=${1:-/repo}; shift 2>/dev/null
+SRC=${1:-/repo}; [ $# -gt 0 ] && shift
 D=$(mktemp -d /tmp/falcon-pure-XXXXXX)
 rsync -a --exclude='*.so' --exclude='*.c' --exclude='.git' --exclude='__pycache__' --exclude='docs' "$SRC"/ "$D"/
 cd "$D" && /venv/bin/python -c "import falcon,sys; assert falcon.__file__.startswith('$D'), falcon.__file__" && \
